@@ -155,7 +155,7 @@ Definition buffer_emit (s : tsys) : tsys * list tout :=
 Definition append_multi (s : tsys) (id : nat) : tsys :=
   match multi s with
   | Some l => upd_multi s (Some (l ++ [id]))
-  | None => s                      (* MultiSubscription::append on an unsubscribed composite drops the handle *)
+  | None => cancel_task s id       (* MultiSubscription::append on an unsubscribed composite unsubscribes the addition *)
   end.
 
 Definition task_finished (s : tsys) (t : nat) : bool :=
@@ -320,7 +320,8 @@ Definition on_unsub (o : top) (s : tsys) : tsys * list tout :=
 Definition sub_closed (o : top) (s : tsys) : bool :=
   match o with
   | TDelay _ | TObserveOn =>
-      (* ZipSubscription::is_closed = b.is_closed(): the MultiSubscription *)
+      (* ZipSubscription(source, MultiSubscription): both halves closed *)
+      negb (src_on s) &&
       match multi s with
       | Some l => forallb (task_finished s) l
       | None => true
@@ -333,9 +334,10 @@ Definition sub_closed (o : top) (s : tsys) : bool :=
       end
   | TInterval _ | TIntervalAt _ _ | TTimer _ _ =>
       match main_task s with Some t => task_finished s t | None => true end
-  | TDebounce _ => match handler s with Some _ => false | None => true end
-  | TThrottle _ _ => negb (alive s)             (* b = ObserverSlot *)
-  | TBufferTime _ | TBufferCountTime _ _ => negb (src_on s)   (* b = the source's subscription *)
+  | TDebounce _ => negb (src_on s) && match handler s with Some _ => false | None => true end
+  | TThrottle _ _ => negb (src_on s) && negb (alive s)      (* (source, ObserverSlot) *)
+  | TBufferTime _ | TBufferCountTime _ _ =>
+      (match main_task s with Some t => task_finished s t | None => true end) && negb (src_on s)
   | TRaw => true
   end.
 
